@@ -136,6 +136,27 @@ Inductive acyclic_chain (ds : list tdef) (rank : str -> nat) : str -> Prop :=
                rank r < rank n /\ exists dr, find_def r ds = Some dr /\ t_is_seq dr = t_is_seq d /\ acyclic_chain ds rank r) ->
     acyclic_chain ds rank n.
 
+(* ---- what the pass yields when the notations stand anywhere (Proofs/C09Perm.v) ---- *)
+(* own components first, then the referenced types' (same kind), in the order of the notations *)
+Fixpoint appended (fuel : nat) (ds : list tdef) (is_seq : bool) (items : list citem) : list str :=
+  match fuel with
+  | 0 => own_names items
+  | S f =>
+      own_names items ++
+      flat_map (fun r => match find_def r ds with
+                         | Some d => if Bool.eqb (t_is_seq d) is_seq then appended f ds is_seq (t_items d) else []
+                         | None => []
+                         end) (refs_of items)
+  end.
+
+(* [any_chain]: like acyclic_chain without the requirement that the notations come last *)
+Inductive any_chain (ds : list tdef) (rank : str -> nat) : str -> Prop :=
+| anyc_intro n d :
+    find_def n ds = Some d ->
+    (forall r, In r (refs_of (t_items d)) ->
+               rank r < rank n /\ exists dr, find_def r ds = Some dr /\ t_is_seq dr = t_is_seq d /\ any_chain ds rank r) ->
+    any_chain ds rank n.
+
 (* ---- selection type: `alt < Choice` is the type of that alternative ---- *)
 Definition select (alts : list (str * N)) (alt : str) : option N :=
   (fix go (l : list (str * N)) : option N :=
